@@ -338,7 +338,11 @@ def run(run: Run):
     signature(run, env)
     from props import C05_binding
     C05_binding.run(run)
-    run.not_decided.append("that Method._fields_mapping orders keys by first occurrence in the method_signature annotations (stage 1; generator function over an OrderedDict - outside pyvc's subset, covered by the native replay only)")
+    run.not_decided.append("that Method._fields_mapping orders keys by first occurrence in the method_signature annotations for every signature set (stage 1; generator "
+                           "function over an OrderedDict - outside pyvc's subset; bounded check of the real function below, never counted as proved)")
+    run.native_standin("props.C05_native", "order_bounded",
+                       "BOUNDED: the real Method.flattened_fields over every signature set of one or two signatures with <= 3 entries over 5 fields (REQUIRED and optional, "
+                       "top-level and dotted): keys in order of first appearance")
     run.native_standin("props.C05_native", "scenarios")
 
 
